@@ -488,8 +488,59 @@ func ruleC15(w *World, r *Report) {
 		f := up("SendMsgToUPF")
 		fn := w.FuncName(f)
 		accepted := w.ConstInt(P, iePkg, "CauseRequestAccepted")
+		rejectedK := w.ConstInt(P, iePkg, "CauseRequestRejected")
+		errNilEdge := func(a, b *ssa.BasicBlock) bool {
+			x, op, y, ok := edgeFact(a, b)
+			if !ok || op != token.EQL || !isNilConst(y) || !isErrorType(x.Type()) {
+				return false
+			}
+			return strings.Contains(symOf(x).String(), "send")
+		}
 		for _, ret := range returnsOf(f) {
 			k, isK := constInt(res(ret, 0))
+			if phi, isPhi := res(ret, 0).(*ssa.Phi); isPhi && !isK {
+				// a single exit that returns a cause variable: every constant the variable can hold is judged
+				// where it enters the variable's φs — a failure cause must be the one the handlers test for,
+				// and 'accepted' must go through an err == nil edge on its way into (or between) the φs
+				type phiEdge struct{ a, b *ssa.BasicBlock }
+				allConst := true
+				seen := map[*ssa.Phi]bool{}
+				var walk func(p *ssa.Phi, chain []phiEdge)
+				walk = func(p *ssa.Phi, chain []phiEdge) {
+					if seen[p] || len(chain) > 4 {
+						allConst = false
+						return
+					}
+					seen[p] = true
+					for i, e := range p.Edges {
+						ch := append(append([]phiEdge{}, chain...), phiEdge{p.Block().Preds[i], p.Block()})
+						if p2, ok := e.(*ssa.Phi); ok {
+							walk(p2, ch)
+							continue
+						}
+						c, ok := constInt(e)
+						if !ok {
+							allConst = false
+							continue
+						}
+						if c != accepted {
+							r.check(c == rejectedK, "R15.4", fn, "a failed operation is reported with the cause the handlers test for", w.Pos(ret.Pos()), "CauseRequestRejected", fmt.Sprintf("the UP4 plug-in reports a failure with cause %d: the session handlers only treat cause %d (Request rejected) as a failure, so the request is answered 'accepted' and the session is stored although its write failed", c, rejectedK))
+							continue
+						}
+						g := false
+						for _, pe := range ch {
+							if errNilEdge(pe.a, pe.b) || (len(pe.a.Instrs) > 0 && onlyVia(f, pe.a.Instrs[len(pe.a.Instrs)-1], errNilEdge)) {
+								g = true
+							}
+						}
+						r.check(g, "R15.4", fn, "accepted only when create/update/delete returned no error", w.Pos(ret.Pos()), "dominated by err == nil", "the UP4 plug-in can answer 'accepted' although the operation returned an error")
+					}
+				}
+				walk(phi, nil)
+				if allConst {
+					continue
+				}
+			}
 			if !isK {
 				r.bad("R15.4", fn, "cause is a constant", w.Pos(ret.Pos()), "cause "+symOf(res(ret, 0)).String())
 				continue
